@@ -152,6 +152,14 @@ class Fn(object):
         return [(d, self.rd.assigned_value(d, name)) for d in self.rd.reaching(n, name)]
 
     def ob(self, rule, inst, ok, node=None, detail='', key=None):
+        # a statement at which some rule discharged an obligation counts as documented (see NOREDEF)
+        if ok and node is not None and node is not self.ast:
+            try:
+                st = self.cfg.stmt_of(node)
+            except Exception:
+                st = None
+            if st is not None:
+                self.cx.documented.add(id(st))
         return self.cx.ob(rule, inst, ok, self.mod, node if node is not None else self.ast,
                           self.qual, detail, key)
 
@@ -481,7 +489,7 @@ def once_per_iteration(fn, loop, stmt):
 # ---------------------------------------------------------------------------
 # statement inventory: the function contains each documented statement (up to renaming of locals)
 
-def inventory(fn, rule, items, metas, root=None, fixed=None, required=True, ordered_add=False, rebind_ok=()):
+def inventory(fn, rule, items, metas, root=None, fixed=None, required=True, ordered_add=False, rebind_ok=(), extra_defs_ok=()):
     """items: list of (instance, pattern source[, options]).  Metavariables (names in `metas`) bind
     consistently across all items to the function's local names, so renaming locals or reordering
     independent statements does not matter; changing what a statement computes does.
@@ -531,7 +539,12 @@ def inventory(fn, rule, items, metas, root=None, fixed=None, required=True, orde
                     alt[id(s_)] = a_nf
             except AnalysisError:
                 pass
+        elif isinstance(s_, ast.If) and not s_.orelse and nf_[0] == 'if':
+            # `if c: continue` + rest  and  `if not c: rest`  are one construct: an `if` item also matches
+            # the opposite test (the run conditions of the dependent statements are decided by CONTEXT)
+            alt[id(s_)] = ('if', sym.negate(nf_[1]))
     best = {'n': -1, 'binding': {}, 'matched': {}}
+    via_alt = {}
 
     def solve(i, binding, matched, skipped):
         if len(matched) > best['n']:
@@ -552,6 +565,7 @@ def inventory(fn, rule, items, metas, root=None, fixed=None, required=True, orde
             for cand in ([nf] + ([alt[id(s)]] if id(s) in alt else [])):
                 for b in sym._unify(pat, cand, binding, metas):
                     matched[inst] = s
+                    via_alt[inst] = cand is not nf
                     if solve(i + 1, b, matched, skipped):
                         return True
                     del matched[inst]
@@ -570,6 +584,11 @@ def inventory(fn, rule, items, metas, root=None, fixed=None, required=True, orde
         for inst, pat, src in pats:
             fn.ob(rule, inst, True, best['matched'].get(inst, fn.ast), key=inst)
         _params_not_replaced(fn, rule, best['matched'], rebind_ok)
+        # a statement matched in its resolved reading documents the temporaries that were inlined into it
+        for inst_, st_ in best['matched'].items():
+            if via_alt.get(inst_):
+                _document_inlined(fn, st_, 0)
+        _roles_not_redefined(fn, rule, best['matched'], best['binding'], root, extra_defs_ok, tuple(fixed or ()))
         context_obligations(fn, rule, best['matched'], best['binding'], root)
         out = dict(best['binding'])
         out['__matched__'] = dict(best['matched'])
@@ -660,6 +679,7 @@ def run_context(fn, st, binding=None, resolved=True):
         locs = {n.id for n in fn.walk(None, into_nested=True) if isinstance(n, ast.Name) and isinstance(n.ctx, ast.Store)}
         locs |= {a.arg for f_ in fn.walk(None, into_nested=True) if isinstance(f_, (ast.Lambda, ast.FunctionDef)) and f_ is not fn.ast
                  for a in f_.args.args}
+        locs |= {h.name for h in fn.walk(None, into_nested=True) if isinstance(h, ast.ExceptHandler) and h.name}
         locs -= set(fn.params)
         fn._local_names = locs
     lits = set()
@@ -700,6 +720,39 @@ def run_context(fn, st, binding=None, resolved=True):
     return sorted(out)
 
 
+def loop_exits(fn, rule, inst, loop, binding=None):
+    """LOOP-EXITS: a documented loop visits every element and runs every iteration to its end, except
+    through the recorded `break` / `continue` / `return` statements (each with its run context)."""
+    def own_jumps(node, inner):
+        for ch in ast.iter_child_nodes(node):
+            if isinstance(ch, (ast.FunctionDef, ast.Lambda, ast.ClassDef)):
+                continue
+            if isinstance(ch, (ast.Break, ast.Continue)):
+                par = fn.parent.get(id(ch))
+                guard = isinstance(ch, ast.Continue) and isinstance(par, ast.If) and len(par.body) == 1 and par.body[0] is ch and not par.orelse
+                # `if c: continue` is the guard-clause spelling of `if not c: <rest>`; the run conditions of
+                # the statements behind it are decided by CONTEXT
+                if not inner and not guard:
+                    yield ch
+            elif isinstance(ch, ast.Return):
+                yield ch
+            elif isinstance(ch, (ast.For, ast.While)):
+                for x in own_jumps(ch, True):
+                    yield x
+            else:
+                for x in own_jumps(ch, inner):
+                    yield x
+    tables = {'as written': {}, 'resolved': {}}
+    for j in own_jumps(loop, False):
+        for reading in tables:
+            c = run_context(fn, j, binding, resolved=(reading == 'resolved'))
+            if c is not None:
+                k = '%s %s' % (type(j).__name__.lower(), ' & '.join(c) or 'always')
+                tables[reading].setdefault(k, []).append(j)
+    fn.cx.context_returns(fn, rule, tables, what='<exits of loop: %s>' % inst,
+                          inst='every iteration of the loop runs to its end except through the documented break/continue/return: %s' % inst)
+
+
 def context_obligations(fn, rule, matched, binding, root=None):
     """CONTEXT: each documented statement, and each return of the function, runs under the conditions
     recorded for it in flowlint/contexts.json (frozen from the reviewed tree by tools/freeze_contexts.py)."""
@@ -709,6 +762,10 @@ def context_obligations(fn, rule, matched, binding, root=None):
         if ctx is None:
             continue
         cx.context_ob(fn, rule, inst, st, {'as written': ctx, 'resolved': run_context(fn, st, binding, resolved=True)})
+    # loops: the ways out of an iteration other than its end (break / continue / return), with their conditions
+    for inst, st in matched.items():
+        if isinstance(st, (ast.For, ast.While)):
+            loop_exits(fn, rule, inst, st, binding)
     rets = [r for r in fn.walk(root, into_nested=False) if isinstance(r, ast.Return)]
     tables = {}
     for reading in ('as written', 'resolved'):
@@ -718,6 +775,106 @@ def context_obligations(fn, rule, matched, binding, root=None):
             if c is not None:
                 table.setdefault(' & '.join(c) or 'always', []).append(r)
     cx.context_returns(fn, rule, tables)
+
+
+def _roles_not_redefined(fn, rule, matched, binding, root=None, extra_defs_ok=(), fixed=()):
+    """NOREDEF: when an inventory documents a definition of a local (a metavariable bound to it is the
+    target of a matched assignment or loop), every other binding of that local in the inventory's scope
+    must be documented as well - matched by an inventory or the site of another discharged obligation of
+    the same check (decided at the end of the run, core.run_rules) - or be an initial empty value, whose
+    number and run conditions are recorded (CONTEXT).  An extra definition - "adjust the index afterwards",
+    "reverse the list on this path" - changes what the later documented steps compute."""
+    roles = {}
+    for m, v in binding.items():
+        if isinstance(v, tuple) and len(v) == 2 and v[0] == 'var' and isinstance(v[1], str) and not m.startswith('__') \
+                and m not in fixed:
+            roles.setdefault(v[1], m)
+    if not roles:
+        return
+    matched_ids = {id(st) for st in matched.values()}
+    fn.cx.documented |= matched_ids
+    params = set(fn.params)
+
+    def targets(st):
+        out = []
+        if isinstance(st, ast.Assign):
+            for t in st.targets:
+                if isinstance(t, (ast.Name, ast.Tuple, ast.List)):
+                    out += [n.id for n in ast.walk(t) if isinstance(n, ast.Name) and isinstance(n.ctx, ast.Store)]
+        elif isinstance(st, (ast.AugAssign, ast.AnnAssign)):
+            if isinstance(st.target, ast.Name):
+                out.append(st.target.id)
+        elif isinstance(st, ast.For):
+            out += [n.id for n in ast.walk(st.target) if isinstance(n, ast.Name)]
+        elif isinstance(st, ast.With):
+            for it in st.items:
+                if it.optional_vars is not None:
+                    out += [n.id for n in ast.walk(it.optional_vars) if isinstance(n, ast.Name)]
+        return out
+    defined_here = set()
+    for st in matched.values():
+        defined_here |= set(targets(st))
+    seen = set()
+    inits = {}
+    for st in fn.walk(root, into_nested=False):
+        if not isinstance(st, (ast.Assign, ast.AugAssign, ast.AnnAssign, ast.For, ast.With)) or id(st) in matched_ids:
+            continue
+        if isinstance(st, ast.Assign) and len(st.targets) == 1 and isinstance(st.targets[0], ast.Name) and st.targets[0].id in roles \
+                and st.targets[0].id not in params and st.targets[0].id in defined_here and _is_empty_init(st.value):
+            inits.setdefault(roles[st.targets[0].id], []).append(st)
+            continue
+        for name in targets(st):
+            if name in roles and name in defined_here and name not in params and roles[name] not in extra_defs_ok \
+                    and (name, id(st)) not in seen:
+                seen.add((name, id(st)))
+                fn.cx.pending_redef.append((fn, rule, roles[name], name, st))
+    for role in sorted(inits):
+        tables = {'as written': {}, 'resolved': {}}
+        for st in inits[role]:
+            for reading in tables:
+                c = run_context(fn, st, binding, resolved=(reading == 'resolved'))
+                if c is not None:
+                    k = '%s %s' % (sym.show(sym.norm(st.value)), ' & '.join(c) or 'always')
+                    tables[reading].setdefault(k, []).append(st)
+        fn.cx.context_returns(fn, rule, tables, what='<initial values of %s>' % role,
+                              inst='the value in role %s starts empty exactly where documented' % role)
+
+
+def settle_redefinitions(cx):
+    """End of a run: an extra definition of a documented local that no rule of this check documented."""
+    for fn, rule, role, name, st in cx.pending_redef:
+        if id(st) in cx.documented:
+            continue
+        cx.ob(rule, 'the value in role %s is defined by documented statements only' % role, False, fn.mod, st, fn.qual,
+              detail='`%s` also defines `%s`, which the documented steps use as %s' % (norm_stmt(st)[:120], name, role),
+              key='redef|%s|%s' % (role, sym.show(sym.stmt_nf(st))[:80]))
+    cx.pending_redef = []
+
+
+def _document_inlined(fn, st, depth):
+    node = fn.cfg.node_containing(st)
+    if node is None or depth > 6:
+        return
+    roots = [st.value] if isinstance(st, (ast.Assign, ast.Return, ast.Expr)) and st.value is not None else []
+    for root in roots:
+        for x in ast.walk(root):
+            if isinstance(x, ast.Name) and isinstance(x.ctx, ast.Load):
+                ds = list(fn.rd.reaching(node, x.id))
+                if len(ds) == 1 and ds[0].kind != 'entry' and isinstance(ds[0].ast, ast.Assign) and id(ds[0].ast) not in fn.cx.documented:
+                    fn.cx.documented.add(id(ds[0].ast))
+                    _document_inlined(fn, ds[0].ast, depth + 1)
+
+
+def _is_empty_init(v):
+    if isinstance(v, ast.Constant) and v.value is None:
+        return True
+    if isinstance(v, (ast.List, ast.Tuple, ast.Set)) and not v.elts:
+        return True
+    if isinstance(v, ast.Dict) and not v.keys:
+        return True
+    if isinstance(v, ast.Call) and dotted(v.func) in ('list', 'dict', 'set', 'tuple', 'collections.OrderedDict') and not v.args and not v.keywords:
+        return True
+    return False
 
 
 def _params_not_replaced(fn, rule, matched, rebind_ok=()):
